@@ -72,6 +72,9 @@ def cases(tier, seed):
         reals = list(itertools.product(("field", "current"), (0.25, 0.5), (1, 3, 10)))
     for drive, mult, win in reals:
         out.append(dict(fam="real", drive=drive, mult=mult, window=win))
+    # one SolverOptions object re-used for two solves and edited in between (the rule applies to the settings as they are now)
+    for drive, how in itertools.product(("field", "gentle_current"), ("fixed_first", "larger_limits_first")):
+        out.append(dict(fam="real", drive=drive, mult=0.5, window=3, reuse_options=how))
     # pinned terminal values other than 0: the windowed change must be that of the states actually visited
     for tp in ("0.5", "0.6+0.3j", "1", "None") if tier == "quick" else ("0.5", "0.6+0.3j", "1", "None", "1e-3", "0.9"):
         for win in (1, 3):
@@ -268,6 +271,23 @@ def run_real_case(case):
         max_solve_retries=s["maxr"], adaptive_time_step_multiplier=s["mult"], save_every=1, output_file="out.h5",
         progress_interval=10**9, terminal_psi=tp,
     )
+    if case.get("reuse_options"):
+        # one options object for two solves: the first with other time-step settings, edited in place before the checked run
+        want = {f: getattr(opts, f) for f in ("adaptive", "dt_init", "dt_max", "adaptive_window", "adaptive_time_step_multiplier", "solve_time", "output_file")}
+        if case["reuse_options"] == "fixed_first":
+            opts.adaptive = False
+            opts.dt_init = opts.dt_max = 1e-3
+        else:
+            opts.dt_max = 4 * s["dt_max"]
+            opts.adaptive_window = s["window"] + 2
+            opts.adaptive_time_step_multiplier = 0.9
+        opts.solve_time, opts.output_file = 0.05, "first.h5"
+        try:
+            tdgl.solve(dev, opts, **kw)
+        except RuntimeError:
+            pass
+        for f, v in want.items():
+            setattr(opts, f, v)
     try:
         tdgl.solve(dev, opts, **kw)
     except RuntimeError as exc:
